@@ -157,7 +157,9 @@ func (b *builder) processAxis(root *axisNode, flags flag, props *builderProp) (q
 	case "self":
 		qyOutput = &selfQuery{Input: qyInput, Predicate: predicate}
 	case "namespace":
-		// haha,what will you do someting??
+		// there is no query for namespace nodes; a nil query would be dereferenced at evaluation time
+		err = errors.New("xpath: the namespace axis is not supported")
+		return nil, err
 	default:
 		err = fmt.Errorf("unknown axe type: %s", root.AxisType)
 		return nil, err
